@@ -3,16 +3,19 @@ import IoraModel.Model.CloseFanout
 import IoraModel.Model.LifecycleSites
 import IoraModel.Lemmas.EngineSteps
 import IoraModel.Lemmas.EngineStale
+import IoraModel.Lemmas.EngineFlags
 import IoraModel.Lemmas.CloseFanout
 /-!
 # C02 — Every session gets exactly one close; nothing before announce or after close
 
-The theorems quantify over EVERY configuration `cfg` (TLS contexts present or not, backpressure policy, limits, and the
-translator's variant flags: F17 / F18 / F20 repairs present or not) and EVERY history `is : List In` of the step system of
+The theorems quantify over EVERY configuration `cfg` (TLS contexts present or not, backpressure policy, limits, and the flags that
+describe the source variant: TLS refusal, name binding, guarded peer-index erase - the driver fixes them to what the site table
+proved equal to the source says) and EVERY history `is : List In` of the step system of
 `Model/EngineLifecycle.lean`: application-thread API calls (connect / connectViaListener / close / send / stop), timer-thread
 closes, and I/O-thread handler invocations, each carrying an arbitrary list of environment answers (kernel, OpenSSL, clocks,
 fault-injection hooks) - i.e. over all interleavings and all fault sequences.  `g.tr` is the sequence of observable events
-(connect() returns and the engine-level callbacks) of the history.
+(connect() returns and the engine-level callbacks) of the history.  The ONLY theorem with a hypothesis about the environment is
+`T3_data_after_announce_tcp`; the hypothesis (`Tcp.envOkHistory`) is a predicate on the INPUT history, not on the output.
 -/
 namespace Iora.C02
 open Iora.Lifecycle Iora.Lifecycle.Sites
@@ -20,25 +23,25 @@ open Iora.Lifecycle Iora.Lifecycle.Sites
 /-! ## tie to the source (translator) -/
 
 /-- Tie (translator): the lifecycle sites found in tcp_engine.hpp are exactly the ones the model's table lists, in order,
-with the same enclosing function, kind and guard. -/
-theorem closeSites_covered_tcp :
-    Iora.Gen.CloseSites.tcpSites = (tcpTable (variantOf Iora.Gen.CloseSites.tcpSites)).map (·.1) := by decide
+with the same enclosing function, kind and guard (the guard includes every earlier block that ends in a jump). -/
+theorem closeSites_covered_tcp : Iora.Gen.CloseSites.tcpSites = tcpTable.map (·.1) := by decide
 
 /-- Tie (translator): same for udp_engine.hpp. -/
 theorem closeSites_covered_udp : Iora.Gen.CloseSites.udpSites = udpTable.map (·.1) := by decide
 
-/-- Every close transition of the model is the image of exactly one source site of its engine (both variants of the tcp table),
-and every source close site is a model transition: the table is a bijection between `closeNow(`/`closeCb(` call sites and
-`Site` constructors (the `closeNow(` of process() stands for the four `procClose` origins). -/
+/-- Every close transition of the model is the image of exactly one source site of its engine, and every source close site is a
+model transition: the table is a bijection between `closeNow(`/`closeCb(` call sites and `Site` constructors (the `closeNow(`
+of process() stands for the four `procClose` origins). -/
 theorem closeSites_bijective :
-    (∀ v : Variant, (closeRoles (tcpTable v)).Nodup) ∧ (closeRoles udpTable).Nodup ∧
-    (∀ s : Site, s ∈ closeRoles (tcpTable ⟨true, true⟩) ∨ s ∈ closeRoles udpTable ∨ ∃ o, s = .procClose o) := by
-  refine ⟨?_, by decide, ?_⟩
-  · intro v; rcases v with ⟨a, b⟩; cases a <;> cases b <;> decide
-  · intro s; cases s <;> first | (left; decide) | (right; left; decide) | (right; right; exact ⟨_, rfl⟩)
+    (closeRoles tcpTable).Nodup ∧ (closeRoles udpTable).Nodup ∧
+    (∀ s : Site, s ∈ closeRoles tcpTable ∨ s ∈ closeRoles udpTable ∨ ∃ o, s = .procClose o) := by
+  refine ⟨by decide, by decide, ?_⟩
+  intro s; cases s <;> first | (left; decide) | (right; left; decide) | (right; right; exact ⟨_, rfl⟩)
 
 /-- Tie (translator): the loops, the fd dispatch, the command dispatch, the shutdown drain, connect()/enqueue() and the Transport
-close handler have the call order the model (and the stepped harness) assumes. -/
+close handler / observe / unobserve / setSessionData (with the mutexes they take) have the call order the model (and the stepped
+harness) assumes; a new connect is registered for EPOLLIN|EPOLLOUT and updateInterest keeps EPOLLOUT while `connectPending`
+(what lets a kernel honour the environment contract of T3c). -/
 theorem skeletons_conform :
     Iora.Gen.CloseSites.tcpLoopUnbatched = loopUnbatched ∧ Iora.Gen.CloseSites.udpLoopUnbatched = loopUnbatched ∧
     Iora.Gen.CloseSites.tcpLoopBatched = loopBatched ∧ Iora.Gen.CloseSites.udpLoopBatched = loopBatched ∧
@@ -48,12 +51,21 @@ theorem skeletons_conform :
     Iora.Gen.CloseSites.tcpConnect = tcpConnect ∧ Iora.Gen.CloseSites.udpConnect = udpConnect ∧
     Iora.Gen.CloseSites.udpConnectVia = udpConnectVia ∧
     Iora.Gen.CloseSites.tcpEnqueue = tcpEnqueue ∧ Iora.Gen.CloseSites.udpEnqueue = udpEnqueue ∧
+    Iora.Gen.CloseSites.tcpConnectEpollMask = tcpConnectEpollMask ∧ Iora.Gen.CloseSites.tcpUpdateInterest = tcpUpdateInterest ∧
     Iora.Gen.CloseSites.fanout = fanout ∧ Iora.Gen.CloseSites.observe = observe ∧
     Iora.Gen.CloseSites.unobserve = unobserve ∧ Iora.Gen.CloseSites.setSessionData = setSessionData := by decide
 
 /-- Tie (translator), restart: the shutdown drain leaves no fd tag of a freed session behind (tcp: the F35 repair), so that a
 restarted engine (`apiStart`) starts from empty maps as the model says. -/
 theorem drainErasesTags : Iora.Gen.CloseSites.tcpDrainErasesTags = true ∧ Iora.Gen.CloseSites.udpDrainErasesTags = true := by decide
+
+/-- Tie (translator): `_nextSessionId` is a `std::atomic<SessionId>` in both engines (connect() on application threads and accepts on
+the I/O thread allocate from it concurrently: the model's allocation steps are atomic), and every direct close-callback call site
+works on its own copy of `_cbs.onClose` taken under `_cbMutex`. -/
+theorem atomics_and_callback_copies :
+    Iora.Gen.CloseSites.tcpNextIdAtomic = true ∧ Iora.Gen.CloseSites.udpNextIdAtomic = true ∧
+    Iora.Gen.CloseSites.tcpCloseCbCalls = Iora.Gen.CloseSites.tcpOnCloseCopies ∧
+    Iora.Gen.CloseSites.udpCloseCbCalls = Iora.Gen.CloseSites.udpOnCloseCopies := by decide
 
 /-! ## the engines: an engine is `Tcp.step` or `Udp.step` -/
 
@@ -120,20 +132,57 @@ theorem T2_open_ids_are_tracked (e : Engine) (cfg : Cfg) (is : List In) (sid : S
     · exact Or.inr ⟨s, hs, key s hs⟩
     · exact absurd h3 hopen
 
-/-- **T3** Order: in every history in which the environment never hands payload bytes to a client socket whose connect the
-engine has not yet seen complete (`envBad = false`; no kernel does that - the hypothesis is evaluated by the driver on every
-replayed trace), each event is in order with respect to everything before it: a close only for an id not closed before; an
-accept/connect callback only for an id not closed before; data only for an id already announced and not closed.  Hence per id:
-`announce < data* < close`, and nothing after the close. -/
-theorem T3_order (e : Engine) (cfg : Cfg) (is : List In) (henv : (after e cfg is).envBad = false)
-    (pre : List Out) (o : Out) (post : List Out) (hsplit : (after e cfg is).tr = pre ++ o :: post) :
-    okAfter pre o := by
-  have h := (reachable e cfg is).inv.ordered henv
-  simpa using orderedFrom_split [] _ h pre o post hsplit
+/-- **T3a** Nothing after the close - unconditionally, for every history and every environment: every engine callback (accept,
+connect, data, close) is for an id that has not been closed before it. -/
+theorem T3_nothing_after_close (e : Engine) (cfg : Cfg) (is : List In)
+    (pre : List Out) (o : Out) (post : List Out) (hsplit : (after e cfg is).tr = pre ++ o :: post)
+    (sid : Sid) (hsid : evSid o = some sid) : sid ∉ closesOf pre := by
+  have h := (reachable e cfg is).inv.ord.closed
+  have h2 : okClosed ([] ++ pre) o := allFrom_split okClosed [] _ h pre o post hsplit
+  rw [List.nil_append] at h2
+  exact h2 sid hsid
 
-/-- T3 without any hypothesis on the environment, for everything except "data before announce": nothing - no callback of any
-kind - is delivered for an id after its close. -/
-theorem T3_nothing_after_close (e : Engine) (cfg : Cfg) (is : List In) (sid : Sid) (s : Sess)
+/-- every reachable state satisfies the flag invariants (no dangling access, no second connect callback) -/
+theorem reachable2 (e : Engine) (cfg : Cfg) (is : List In) : Good2 (after e cfg is) := by
+  cases e
+  · exact Tcp.good2_run cfg is
+  · exact (Udp.goodU_run cfg is).good2
+
+/-- **T3b** At most one accept callback and at most one connect callback per id - unconditionally. (A TLS session accepted by a
+listener gets both: `onAccept` when the TCP connection is accepted, `onConnect` when its handshake completes.) -/
+theorem T3_announce_at_most_once (e : Engine) (cfg : Cfg) (is : List In)
+    (pre : List Out) (sid : Sid) (k : AnnKind) (post : List Out) (hsplit : (after e cfg is).tr = pre ++ Out.announce sid k :: post) :
+    Out.announce sid k ∉ pre := by
+  have h := (reachable e cfg is).inv.ord.once (reachable2 e cfg is).nodup
+  have h2 : okOnce ([] ++ pre) (Out.announce sid k) := allFrom_split okOnce [] _ h pre _ post hsplit
+  rw [List.nil_append] at h2
+  exact h2
+
+/-- **T3c (UDP)** Data only after the accept/connect callback - unconditionally on the UDP engine. -/
+theorem T3_data_after_announce_udp (cfg : Cfg) (is : List In)
+    (pre : List Out) (sid : Sid) (post : List Out) (hsplit : (after .udp cfg is).tr = pre ++ Out.data sid :: post) :
+    sid ∈ annOf pre := by
+  have h := (reachable .udp cfg is).inv.ord.data (Udp.goodU_run cfg is).noenv
+  have h2 : okData ([] ++ pre) (Out.data sid) := allFrom_split okData [] _ h pre _ post hsplit
+  rw [List.nil_append] at h2
+  exact h2
+
+/-- **T3c (TCP)** Data only after the accept/connect callback, in every history whose steps honour the ENVIRONMENT CONTRACT
+`Tcp.envOk` - an input hypothesis, evaluated on the state before each step: the kernel does not return payload from a socket whose
+connect has not completed (see `Tcp.envOkSession`).  It concerns plain client sessions with a pending connect only; TLS and
+accepted sessions need no hypothesis.  (The harness checks the same fact on the real engine with no excuse: an `onData` before
+`onConnect` on real loopback sockets is reported as a property violation.) -/
+theorem T3_data_after_announce_tcp (cfg : Cfg) (is : List In) (henv : Tcp.envOkHistory Tcp.step (init cfg) is = true)
+    (pre : List Out) (sid : Sid) (post : List Out) (hsplit : (after .tcp cfg is).tr = pre ++ Out.data sid :: post) :
+    sid ∈ annOf pre := by
+  have he : (after .tcp cfg is).envBad = false := Tcp.env_run (init cfg) is (good2_init cfg) henv
+  have h := (reachable .tcp cfg is).inv.ord.data he
+  have h2 : okData ([] ++ pre) (Out.data sid) := allFrom_split okData [] _ h pre _ post hsplit
+  rw [List.nil_append] at h2
+  exact h2
+
+/-- state form of T3a: a live table entry has never been closed (so no handler can emit for a closed id) -/
+theorem T3_live_entries_not_closed (e : Engine) (cfg : Cfg) (is : List In) (sid : Sid) (s : Sess)
     (hlive : (after e cfg is).table sid = some s) (hopen : s.closed = false) :
     sid ∉ closesOf (after e cfg is).tr := by
   intro hm
@@ -182,9 +231,7 @@ from the map (or `cr.sid` of a request that is not in flight).  No history does:
 re-look the session up before touching it again.  (Together with the acceptor this is what the `!stale` flag of the driver and
 ASan on the real engine check from the other side: mutant M2, a dropped `return` after the EPOLLHUP close, is caught there.) -/
 theorem no_dangling_session_access (e : Engine) (cfg : Cfg) (is : List In) : (after e cfg is).stale = false := by
-  cases e
-  · exact (good_run _ Tcp.good_step _ (good_init cfg) is).nostale
-  · exact (good_run _ Udp.good_step _ (good_init cfg) is).nostale
+  exact (reachable2 e cfg is).good.nostale
 
 /-- UDP peer index (with or without the F17 repair): a datagram is only ever routed to a live, announced session of that peer. -/
 theorem udp_index_points_at_live_sessions (cfg : Cfg) (is : List In) (k : Key) (sid : Sid)
@@ -197,21 +244,27 @@ theorem udp_index_points_at_live_sessions (cfg : Cfg) (is : List In) (k : Key) (
 /-- the F30 history: connect, stop; the I/O thread drains; a second connect() lands after the drain's process() - it is returned
 to the application (`ret 2 true`) and closed by the residual loop. -/
 def f30History : List In :=
-  [.apiConnect false false, .ioSwap, .ioCmd [.again, .ok, .ok], .apiStop, .ioDrainBegin, .ioCmd [], .ioDrainClose 1,
-   .apiConnect false false, .ioDrainFinish]
+  [.apiConnect .none false, .ioSwap, .ioCmd [.again, .ok, .ok], .apiStop, .ioDrainBegin, .ioCmd [], .ioDrainClose 1,
+   .apiConnect .none false, .ioDrainFinish]
 
 example : (after .tcp {} f30History).phase = .stopped := by decide
 /-- restart: ids keep counting, the second run is drained like the first -/
-example : (after .tcp {} (f30History ++ [.apiStart, .apiConnect false false, .apiStop, .ioDrainBegin, .ioCmd [], .ioCmd [], .ioDrainFinish])).tr =
+example : (after .tcp {} (f30History ++ [.apiStart, .apiConnect .none false, .apiStop, .ioDrainBegin, .ioCmd [], .ioCmd [], .ioDrainFinish])).tr =
     [.ret 1 true, .announce 1 .connect, .close 1 .drainSession, .ret 2 true, .close 2 .drainResidual,
      .ret 3 true, .close 3 .drainSession] := by decide
 example : (after .tcp {} f30History).tr =
     [.ret 1 true, .announce 1 .connect, .close 1 .drainSession, .ret 2 true, .close 2 .drainResidual] := by decide
 example : (2 : Sid) ∈ retOf (after .tcp {} f30History).tr := by decide
-example : (after .tcp {} f30History).envBad = false := by decide
-/-- a history in which the environment hypothesis of T3 is false: payload bytes on a client socket before its connect completed -/
-example : (after .tcp {} [.apiConnect false false, .ioSwap, .ioCmd [.again, .ok, .again], .ioSession 1 true false false [.data]]).envBad = true := by
-  decide
+example : Tcp.envOkHistory Tcp.step (init {}) f30History = true := by decide
+/-- a history that breaks the environment contract: payload bytes on a client socket before its connect completed (EPOLLIN without
+EPOLLOUT on a socket the engine registered for both) -/
+example : Tcp.envOkHistory Tcp.step (init {})
+    [.apiConnect .none false, .ioSwap, .ioCmd [.again, .ok, .again], .ioSession 1 true false false [.data]] = false := by decide
+/-- ... and one that honours it although data arrives in the same event as the connect completion -/
+example : Tcp.envOkHistory Tcp.step (init {})
+    [.apiConnect .none false, .ioSwap, .ioCmd [.again, .ok, .again], .ioSession 1 true true false [.ok, .ok, .ok, .data, .again]] = true := by decide
+example : (after .tcp {} [.apiConnect .none false, .ioSwap, .ioCmd [.again, .ok, .again], .ioSession 1 true true false [.ok, .ok, .ok, .data, .again]]).tr =
+    [.ret 1 true, .announce 1 .connect, .data 1] := by decide
 
 /-! ## the Transport close fan-out (T5) -/
 open Iora.Fanout in
@@ -219,18 +272,18 @@ open Iora.Fanout in
 registered when the global callback returns, in registration order, each exactly once, then the cleanup of the user data that is
 set when the last observer returns (if it has a cleanup function and a non-null pointer) - for every state and whatever the
 callbacks themselves do (observe / unobserve / setSessionData from inside callbacks). -/
-theorem T5_fanout_shape (sid : Fanout.Sid) (f : F) (hp : sid ∉ f.pending) :
+theorem T5_fanout_shape (sid : Fanout.Sid) (f : F) :
     (closeFan sid f).2.filter isCb =
       (if f.hasGlobal then [Fanout.Out.global sid] else []) ++ ((globalPart sid f).1.observers sid).map (Fanout.Out.observer sid) ++
       cleanupOf sid (observerPart sid (globalPart sid f).1).1 :=
-  closeFan_shape sid f hp
+  closeFan_shape sid f
 
 open Iora.Fanout in
 /-- T5, exactly once: after a close the session's observers and user data are gone from the maps - a second close notification
 for the same id (impossible by T1) would reach the global callback only. -/
-theorem T5_fanout_once (sid : Fanout.Sid) (f : F) (hp : sid ∉ f.pending) (hi : f.inside = []) :
+theorem T5_fanout_once (sid : Fanout.Sid) (f : F) (hi : f.inside = []) :
     (closeFan sid (closeFan sid f).1).2 = if f.hasGlobal then [Fanout.Out.global sid] else [] :=
-  closeFan_once sid f hp hi
+  closeFan_once sid f hi
 
 open Iora.Fanout in
 /-- T5, "registered, in registration order, each once" for every history of observe / unobserve / setSessionData / close
